@@ -29,7 +29,12 @@ func VrfC03Allocate() {
 	// role of each peer in the three input lists
 	var cur, excl, prio []peer.ID
 	for i := 0; i < n; i++ {
-		switch vrf_choice("role", vrf_param("roles")) {
+		// (the first peer may take every role; the others the first "roles" ones)
+		nr := vrf_param("roles")
+		if i == 0 {
+			nr = 7
+		}
+		switch vrf_choice("role", nr) {
 		case 0:
 		case 1:
 			cur = append(cur, vrfPeerNames[i])
